@@ -244,6 +244,7 @@ func universe() []Elem {
 		n(1, true), n(2, false), n(3, false),
 		w(1, 1, 2), w(2, 2, 3),
 		r(1, Ref{'w', 1}), r(1, Ref{'n', 3}), r(1, Ref{'r', 2}),
+		r(1, Ref{'w', 2}, Ref{'r', 2}), // way 2 and relation 2: equal ids in different id spaces
 		r(2, Ref{'r', 1}),
 	}
 }
@@ -310,16 +311,17 @@ func scenarios(tier string) []Scenario {
 	// concurrent tier: sharp documents in which the collision is forced
 	tagged := func(e Elem) Elem { e.Tagged = true; return e }
 	sharp := []Doc{
-		{n(1, true), w(1, 1, 2), n(2, false)},                                       // node immediately before the way that needs it
-		{w(1, 1, 2), n(1, true), n(2, false)},                                       // way first
-		{n(1, true), n(2, false), w(1, 1, 2)},                                       // nodes first
-		{n(1, true), n(2, false), w(1, 1, 2), w(2, 2, 3), n(3, false)},              // shared node between two ways
-		{n(1, true), w(1, 1, 2), r(1, Ref{'w', 1}), n(2, false)},                    // relation adjacent to its member
-		{r(1, Ref{'w', 1}), w(1, 1, 2), n(1, true), n(2, false)},                    // reverse dependency order
-		{n(1, true), r(1, Ref{'n', 1}, Ref{'r', 2}), r(2, Ref{'r', 1})},             // relation cycle entered through a node
-		{r(2, Ref{'r', 1}), r(1, Ref{'n', 1}, Ref{'r', 2}), n(1, true)},             // cycle, reverse
-		{n(3, false), r(1, Ref{'n', 3}), n(1, true), w(1, 1, 2), n(2, false)},       // unrelated relation + way
-		{n(1, true), n(2, false), w(1, 1, 2), r(1, Ref{'w', 1}), r(2, Ref{'r', 1})}, // chain of three levels
+		{n(1, true), w(1, 1, 2), n(2, false)},                                                                         // node immediately before the way that needs it
+		{w(1, 1, 2), n(1, true), n(2, false)},                                                                         // way first
+		{n(1, true), n(2, false), w(1, 1, 2)},                                                                         // nodes first
+		{n(1, true), n(2, false), w(1, 1, 2), w(2, 2, 3), n(3, false)},                                                // shared node between two ways
+		{n(1, true), w(1, 1, 2), r(1, Ref{'w', 1}), n(2, false)},                                                      // relation adjacent to its member
+		{r(1, Ref{'w', 1}), w(1, 1, 2), n(1, true), n(2, false)},                                                      // reverse dependency order
+		{n(1, true), r(1, Ref{'n', 1}, Ref{'r', 2}), r(2, Ref{'r', 1})},                                               // relation cycle entered through a node
+		{r(2, Ref{'r', 1}), r(1, Ref{'n', 1}, Ref{'r', 2}), n(1, true)},                                               // cycle, reverse
+		{n(3, false), r(1, Ref{'n', 3}), n(1, true), w(1, 1, 2), n(2, false)},                                         // unrelated relation + way
+		{n(1, true), n(2, false), w(1, 1, 2), r(1, Ref{'w', 1}), r(2, Ref{'r', 1})},                                   // chain of three levels
+		{tagged(r(1, Ref{'w', 2}, Ref{'r', 2})), r(2, Ref{'n', 1}), w(2, 2, 3), n(1, true), n(2, false), n(3, false)}, // way 2 and relation 2 share their id
 	}
 	// Two complementary bounded searches per sharp document:
 	//  - preemption bounding (free switches at blocking points, every
@@ -361,6 +363,11 @@ func scenarios(tier string) []Scenario {
 			}
 			add(d, keepBounds, 2, pb, 8, false)
 			add(q, keepTags, 2, pb, 8, false)
+			if tier == "thorough" {
+				// three workers under preemption bounding: the free switches at
+				// blocking points alone give > 10^5 executions per document
+				add(d, keepBounds, 3, 1, 16, false)
+			}
 		}
 	}
 	// Filter: sequential, map iteration order as environment choice
@@ -400,9 +407,22 @@ type scenResult struct {
 }
 
 func extractOnce(s Scenario) (string, string) {
-	d, err := gosm.ExtractXML(context.Background(), strings.NewReader(s.Doc.XML()), keepFunc(s.Keep), true)
+	rd := strings.NewReader(s.Doc.XML())
+	d, err := gosm.ExtractXML(context.Background(), rd, keepFunc(s.Keep), true)
 	if err != nil {
 		return "error: " + err.Error(), "error"
+	}
+	if s.NProcs == 1 && s.Kind == "extract" {
+		// history: a second extraction from the same reader (left wherever the
+		// first one stopped) must give the same result
+		d2, err2 := gosm.ExtractXML(context.Background(), rd, keepFunc(s.Keep), true)
+		if err2 != nil || setString(dataSet(d2)) != setString(dataSet(d)) {
+			got := "error"
+			if err2 == nil {
+				got = setString(dataSet(d2))
+			}
+			return setString(dataSet(d)) + " then " + got, "second-extraction-from-the-same-reader-differs"
+		}
 	}
 	got := setString(dataSet(d))
 	want := setString(lfp(s.Doc, s.Keep))
@@ -541,7 +561,7 @@ func main() {
 		return
 	}
 	rep := report.New("C18", tier, "model_checking")
-	rep.Rule = "E3: instrumented encoding/osm (sync.Mutex/RWMutex, errgroup, channel, go rewritten to the vrt shim) under a cooperative scheduler; stateless DFS over all schedules with <= bound preemptions (scheduling point before every lock/unlock/send/recv/close/spawn/wait); sequential tier: every dangling-free document over 3 nodes, 2 ways, 2 relations with <= 4(5) elements in every element order x {KeepAll, KeepBounds, KeepTags on each element}, one worker, bound 1(2); concurrent tier: 10 sharp documents x 2-3 workers x keep functions, bound 1-2(2-3); Filter: map-iteration orders as environment choices, deviation bound 1(2). Oracle per execution: Nodes/Ways/Relations = sequential least fixpoint, Check()==nil for dangling-free documents, no panic/deadlock/livelock; Filter = fixpoint, idempotent, closed, subset. Non-trivial = executions with at least one deviation."
+	rep.Rule = "E3: instrumented encoding/osm (sync.Mutex/RWMutex, errgroup, channel, go rewritten to the vrt shim) under a cooperative scheduler; stateless DFS over all schedules with <= bound preemptions (scheduling point before every lock/unlock/send/recv/close/spawn/wait); sequential tier: every dangling-free document over 3 nodes, 2 ways, 2 relations with <= 4(5) elements in every element order x {KeepAll, KeepBounds, KeepTags on each element}, one worker, bound 1(2); concurrent tier: 10 sharp documents x 2-3 workers x keep functions, bound 1-2(2-3); Filter: map-iteration orders as environment choices, deviation bound 1(2). sequential tier: a second extraction from the same reader must agree. Oracle per execution: Nodes/Ways/Relations = sequential least fixpoint, Check()==nil for dangling-free documents, no panic/deadlock/livelock; Filter = fixpoint, idempotent, closed, subset. Non-trivial = executions with at least one deviation."
 	rep.Assumptions = []string{"ExtractPBF is not explored (osmpbf owns uncontrolled goroutines); it shares extract(), which is", "memory-model effects below the hooked synchronisation operations are covered only by a separate -race pass", "the free-running package's outcome must be among the explored outcomes (shim conformance)"}
 	sc := scenarios(tier)
 	rep.Set("scenarios", len(sc))
